@@ -358,8 +358,21 @@ func c07BRun(c c07BCase) (v vVerdict) {
 
 	var want []byte // concatenation of accepted records
 	k := 0
+	blockedWrites := 0
 	accept := func() error {
-		err := writeRec(k)
+		// WriteRecord is meant not to wait for the disk.  Should it do so while the far end is not reading,
+		// let the disk resume after 3 s so that the case (and the run) ends; the contents are still judged.
+		res := make(chan error, 1)
+		kk := k
+		go func() { res <- writeRec(kk) }()
+		var err error
+		select {
+		case err = <-res:
+		case <-time.After(3 * time.Second):
+			blockedWrites++
+			rd.set(true)
+			err = <-res
+		}
 		if err == nil {
 			want = append(want, recBytes(k)...)
 		}
@@ -459,6 +472,9 @@ func c07BRun(c c07BCase) (v vVerdict) {
 	}
 	v.NonTrivial = stalled && acceptedAfter > 0
 	v.Classes = append(v.Classes, c.Kind)
+	if blockedWrites > 0 {
+		v.Classes = append(v.Classes, "write-waited-for-the-disk")
+	}
 	if stalled {
 		v.Classes = append(v.Classes, "queue-full-reached")
 	} else {
